@@ -34,7 +34,7 @@ var storesPhase1 = []storeCfg{
 	{"rdb-v2", dnsfix.RDBv2, false},
 }
 var storesPhase2 = []storeCfg{{"cdb-perfamily", dnsfix.CDB, true}}
-var storeNames = []string{"cdb-combined", "rdb-v1", "rdb-v2", "cdb-perfamily"}
+var storeNames = []string{"cdb-combined", "rdb-v1", "rdb-v2", "cdb-perfamily", "rdb-v1-preproc", "rdb-v2-preproc"}
 
 func storeIndex(n string) uint8 {
 	for i, s := range storeNames {
